@@ -179,9 +179,9 @@ def classify(ctx, prop):
 # ------------------------------------------------------------------ evidence
 
 def write_replay(v, idx):
-    os.makedirs(os.path.join(env.VERIF_DIR, 'replay'), exist_ok=True)
+    os.makedirs(os.path.join(env.OUT_DIR, 'replay'), exist_ok=True)
     name = '%s-%s-%d.json' % (v['prop'], ''.join(c if c.isalnum() else '_' for c in v['mech'])[:60], idx)
-    path = os.path.join(env.VERIF_DIR, 'replay', name)
+    path = os.path.join(env.OUT_DIR, 'replay', name)
     with open(path, 'w') as f:
         json.dump(dict(property=v['prop'], monitor=v['monitor'], mechanism=v['mech'],
                        what=v['what'], witness=v['witness'], replay=v['replay']),
@@ -221,8 +221,8 @@ def write_evidence(ctx, prop, level, rule, assumptions, n_new, known, verdict, c
         'wall_s': round(time.time() - ctx.t0, 2),
         'violations': int(n_new),
     }
-    os.makedirs(os.path.join(env.VERIF_DIR, 'evidence'), exist_ok=True)
-    path = os.path.join(env.VERIF_DIR, 'evidence', prop + '.json')
+    os.makedirs(os.path.join(env.OUT_DIR, 'evidence'), exist_ok=True)
+    path = os.path.join(env.OUT_DIR, 'evidence', prop + '.json')
     tmp = path + '.tmp'
     with open(tmp, 'w') as f:
         json.dump(ev, f, indent=1, default=repr)
@@ -235,7 +235,7 @@ def write_evidence(ctx, prop, level, rule, assumptions, n_new, known, verdict, c
 def run_shards(prop, tier, seed, nshards, timeout_s, extra_env=None):
     """Run `nshards` copies of check.py --shard i/n; returns list of loaded dumps
     and a list of failures (shard crashed / timed out => inconclusive)."""
-    sh_dir = os.path.join(env.VERIF_DIR, '.shards')
+    sh_dir = os.path.join(env.OUT_DIR, '.shards')
     os.makedirs(sh_dir, exist_ok=True)
     procs = []
     for i in range(nshards):
